@@ -33,19 +33,19 @@ import (
 const vfGenericHTTP = "http-mismatch"
 
 const (
-	vfhOkNew = iota // 200, new valid content
-	vfhOkSame       // 200, the last valid content again (unchanged)
-	vfhEmpty        // 200, empty body
-	vfhInvalid      // 200, invalid rule set
-	vfhUnsupported  // 200, text/plain (generated, not asserted)
-	vfh404          // not found -> source gone
-	vfh500          // server error (generated, not asserted: the statement names only not-found and communication errors)
-	vfhRefused      // connection refused
-	vfhTimeout      // request timed out
-	vfhFail         // next processor call fails (no poll)
-	vfhOkNew2       // second endpoint: new valid content
-	vfh404x2        // second endpoint: not found
-	vfhInvalid2     // second endpoint: invalid content
+	vfhOkNew       = iota // 200, new valid content
+	vfhOkSame             // 200, the last valid content again (unchanged)
+	vfhEmpty              // 200, empty body
+	vfhInvalid            // 200, invalid rule set
+	vfhUnsupported        // 200, text/plain (generated, not asserted)
+	vfh404                // not found -> source gone
+	vfh500                // server error (generated, not asserted: the statement names only not-found and communication errors)
+	vfhRefused            // connection refused
+	vfhTimeout            // request timed out
+	vfhFail               // next processor call fails (no poll)
+	vfhOkNew2             // second endpoint: new valid content
+	vfh404x2              // second endpoint: not found
+	vfhInvalid2           // second endpoint: invalid content
 	vfhN
 )
 
